@@ -399,25 +399,68 @@ func cmdReplay(args []string) int {
 		fmt.Fprintln(os.Stderr, err)
 		return 2
 	}
-	p, err := loadProgram(harnessPaths(rf.Files), nil)
+	// the harness files are those the property's specification names for this run today (the stored list is a fallback)
+	files := rf.Files
+	if spec, err := loadSpec(rf.Property); err == nil {
+		for _, r := range spec.Runs {
+			if r.Name == rf.Run.Name {
+				files = runFiles(spec, r.Name)
+			}
+		}
+	}
+	p, err := loadProgram(harnessPaths(files), nil)
 	if err != nil {
 		fmt.Fprintln(os.Stderr, err)
 		return 2
 	}
+	if p.pkg.Func(rf.Run.Entry) == nil {
+		fmt.Fprintf(os.Stderr, "replay: harness function %s is not in %v\n", rf.Run.Entry, files)
+		return 2
+	}
+	// 1. the recorded path: every recorded decision must still be feasible in the current code
 	cfg := rf.Run
 	cfg.Workers = 1
 	cfg.FixedPath = rf.Violation.Decisions
+	cfg.FixedLabels = rf.Violation.DecLabels
 	res, err := explore(p, cfg)
 	if err != nil {
 		fmt.Fprintln(os.Stderr, err)
 		return 2
 	}
 	printResult(res, true)
-	for sig := range res.Viols {
+	if res.Diverged == "" {
+		for sig := range res.Viols {
+			if sig == rf.Signature {
+				fmt.Printf("REPRODUCED property=%s %s (recorded path, %d decisions)\n", rf.Property, sig, len(rf.Violation.Decisions))
+				return 1
+			}
+		}
+	}
+	if res.Diverged != "" {
+		fmt.Printf("replay: the recorded path does not exist in the current code: %s\n", res.Diverged)
+	} else {
+		fmt.Printf("replay: the recorded path exists in the current code and no longer violates\n")
+	}
+	// 2. the same violation may exist on another path of the current code: explore the run at its recorded bound
+	cfg = rf.Run
+	cfg.FixedPath = nil
+	cfg.Workers = 16
+	cfg.CrossCheck = 0
+	res, err = explore(p, cfg)
+	if err != nil {
+		fmt.Fprintln(os.Stderr, err)
+		return 2
+	}
+	printResult(res, false)
+	for sig, g := range res.Viols {
 		if sig == rf.Signature {
-			fmt.Printf("REPRODUCED property=%s %s\n", rf.Property, sig)
+			fmt.Printf("REPRODUCED property=%s %s (on %d path(s) of the current code, run %s re-explored)\n", rf.Property, sig, g.Count, cfg.Name)
 			return 1
 		}
+	}
+	if len(res.Inconc) > 0 {
+		fmt.Printf("INCONCLUSIVE property=%s: the re-exploration did not complete\n", rf.Property)
+		return 2
 	}
 	fmt.Printf("NOT-REPRODUCED property=%s %s\n", rf.Property, rf.Signature)
 	return 0
